@@ -64,10 +64,10 @@ for (_m, _K) in [(2, 2), (2, 3), (3, 3)]:
 _smallmij(2, 1, (1, 1))
 
 
-def _delta(N, m, K):
-    @task("C19", "get_delta[N=%d,m=%d,K=%d]" % (N, m, K))
+def _delta(N, m, K, mu_kind="f"):
+    @task("C19", "get_delta[N=%d,m=%d,K=%d%s]" % (N, m, K, "" if mu_kind == "f" else ",mu dtype=int"))
     def _t(t):
-        mu = t.inp("mu", InArr("mu", (N, m)))
+        mu = t.inp("mu", InArr("mu", (N, m), mu_kind))     # mu_kind="i": an integer-dtype value table (gaps are still reals)
         W = t.inp("W", InArr("W", (K, m)))
         al = t.inp("alpha", InArr("al", (K, 1)))
         MIJ = z3.Function("MIJ", z3.IntSort(), z3.IntSort(), z3.RealSort())
@@ -105,6 +105,7 @@ def _delta(N, m, K):
 
 
 _delta(2, 2, 2)
+_delta(2, 2, 2, mu_kind="i")
 _delta(3, 2, 2)
 _delta(3, 3, 4)
 
@@ -321,3 +322,107 @@ def _f1_lemmas(t):
     u = S.reals("u", m)
     t.prove("coverage_witness_persists_for_larger_eps",
             z3.Implies(z3.And(0 <= e1, e1 <= e2, u[0] * u[0] + u[1] * u[1] <= e1 * e1), u[0] * u[0] + u[1] * u[1] <= e2 * e2), use_pre=False)
+
+
+# ----------------------------------------------------------------------------------------------
+# calculate_hypervolume_discrepancy_for_model: data flow.  botorch's Hypervolume, the Sobol sampler, the problem, the model and
+# get_pareto_set are used BY CONTRACT; decided here: both fronts are measured in the cone's FACET coordinates (row i -> W f_i),
+# against the same reference point (the column-wise minimum over all sampled designs), true front first, result = log of the
+# difference.  (That HV(true front) >= HV(predicted subset) is then a property of the monotone set function itself.)
+# ----------------------------------------------------------------------------------------------
+EV = "vopy/utils/evaluate.py"
+
+
+@task("C19", "calculate_hypervolume_discrepancy_for_model[N=3,m=2,K=2]")
+def _hv_flow(t):
+    from pyvc.harness import InOrder
+    from pyvc.values import SObj, Opaque
+    N, m, K, d = 3, 2, 2, 2
+    order = t.inp("order", InOrder("o", K, m))
+    O = t.inputs["order"]
+    F = L.fresh_array("f", (N, m))
+    Y = L.fresh_array("y", (N, m))
+    X = L.fresh_array("x", (N, d))
+    hv_true, hv_pred = z3.Real("hv_true"), z3.Real("hv_pred")
+    t.assume(hv_true - hv_pred > z3.RealVal("0.0001"))
+    log_ = {"hv": [], "pareto": [], "eval": [], "predict": []}
+
+    class HV:
+        def __init__(self, ref):
+            self.ref = ref
+
+        def getattr(self, ex, st, name):
+            if name == "compute":
+                return self
+            raise AttributeError(name)
+
+        def call(self, ex, st, args, kwargs, node):
+            log_["hv"].append((self.ref, args[0]))
+            return hv_true if len(log_["hv"]) == 1 else hv_pred
+
+        def clone(self, memo):
+            return self
+
+    class Obj:
+        def __init__(self, kind):
+            self.kind = kind
+
+        def getattr(self, ex, st, name):
+            if self.kind == "problem" and name == "in_dim":
+                return d
+            return Meth(self.kind, name)
+
+        def clone(self, memo):
+            return self
+
+    class Meth:
+        def __init__(self, kind, name):
+            self.kind, self.name = kind, name
+
+        def call(self, ex, st, args, kwargs, node):
+            if (self.kind, self.name) == ("problem", "evaluate"):
+                log_["eval"].append((args[0], kwargs.get("noisy", args[1] if len(args) > 1 else None)))
+                return F
+            if (self.kind, self.name) == ("model", "predict"):
+                log_["predict"].append(args[0])
+                return (Y, L.fresh_array("cov", (N, m, m)))
+            raise AttributeError(self.name)
+
+        def clone(self, memo):
+            return self
+
+    def lib_hook(ex, st, dotted, args, kwargs, node):
+        if dotted == "botorch.utils.multi_objective.hypervolume.Hypervolume":
+            return HV(args[0] if args else kwargs.get("ref_point"))
+        return NotImplemented
+    t.hooks["lib"] = lib_hook
+    t.contracts["vopy/utils/utils.py::generate_sobol_samples"] = lambda ex, st, sv, args, kwargs, node: [(st, X)]
+
+    def c_pareto(ex, st, sv, args, kwargs, node):
+        log_["pareto"].append(args[0])
+        return [(st, L.mk([0, 2], (2,), "i") if len(log_["pareto"]) == 1 else L.mk([1], (1,), "i"))]
+    t.contracts["vopy/order.py::PolyhedralConeOrder.get_pareto_set"] = c_pareto
+    paths = t.run(EV, "calculate_hypervolume_discrepancy_for_model", [order, Obj("problem"), Obj("model")])
+    t.must_fail()
+    t.no_raise(paths)
+    if len(paths) != 1:
+        from pyvc.values import Unsupported
+        raise Unsupported("the call log of this task is kept per run: a forking body is outside its reach")
+    W = S.rows_of(O)
+    cone = lambda i: [S.dot(W[k], [V.R(F.a[i, c]) for c in range(m)]) for k in range(K)]
+    zmin_ = lambda v: __import__("functools").reduce(lambda a, b: z3.If(b < a, b, a), v)
+
+    def goal(p):
+        if len(log_["hv"]) != 2 or len(log_["pareto"]) != 2 or len(log_["eval"]) != 1 or len(log_["predict"]) != 1:
+            return False
+        (ref1, a1), (ref2, a2) = log_["hv"]
+        if ref1 is not ref2 or not isinstance(ref1, L.SArr) or ref1.shape != (K,) or a1.shape != (2, K) or a2.shape != (1, K):
+            return False
+        cs = [z3.BoolVal(log_["pareto"][0] is F and log_["pareto"][1] is Y and log_["eval"][0][0] is X and log_["eval"][0][1] is False and log_["predict"][0] is X)]
+        cs += [V.R(ref1.a[k]) == zmin_([cone(i)[k] for i in range(N)]) for k in range(K)]
+        for r, i in enumerate([0, 2]):
+            cs += [V.R(a1.a[r, k]) == cone(i)[k] for k in range(K)]
+        cs += [V.R(a2.a[0, k]) == cone(1)[k] for k in range(K)]
+        cs.append(V.R(p.value) == L.LOG(hv_true - hv_pred) if p.kind == "return" else z3.BoolVal(False))
+        return z3.And(*cs)
+    t.prove_paths("both_fronts_in_facet_coordinates_W_f_same_reference_point_min_over_all_designs_true_front_first_log_of_difference", paths, goal)
